@@ -118,7 +118,8 @@ pair("unique-id", "string", "unique-id", [], nondet="ident")
 pair("unquote", "string", "unquote", [("string", "str")])
 
 SEPARATELY_DEFINED = {("grayscale", "color", "grayscale"), ("invert", "color", "invert"),
-                      ("round", "math", "round"), ("abs", "math", "abs")}
+                      ("round", "math", "round"), ("abs", "math", "abs"),
+                      ("max", "math", "max"), ("min", "math", "min")}
 
 # ---------------------------------------------------------------------------------------------
 # value generators (SCSS text)
@@ -326,6 +327,12 @@ def judge(case, impl, asis, spec):
     if any(oks) and not all(oks):
         bad = [l for l, o in zip(labels, oks) if not o]
         good = [l for l, o in zip(labels, oks) if o]
+        if all(l.startswith("m-") for l in bad) and all(l.startswith("g-") for l in good):
+            case.note["split"] = "global-vs-module"
+            errs = [unhx(x[4:]) for x, o in zip(res, oks) if not o]
+            kept = [value_of(x) or "" for x, o in zip(res, oks) if o]
+            case.note["minmax_fallback"] = all("ncompatible" in e for e in errs) and \
+                all(k.startswith((fld[1] + "(")) for k in kept)
         return Verdict(corr, f"{case.note['pair']}: forms {bad} fail while {good} succeed")
     if not any(oks):
         return Verdict(corr, None)
@@ -348,16 +355,23 @@ def judge(case, impl, asis, spec):
 
 
 # known findings of impl-vs-impl kind: deviation flag -> global name of the pair it concerns
-FINDING_PAIRS = {"grayscaleGlobalRgbFormat": "grayscale"}
+FINDING_PAIRS = {"grayscaleGlobalRgbFormat": ["grayscale"], "minMaxCssFallback": ["max", "min"]}
 
 
 def explained(case, r, live):
     """a failure is explained only if a live finding names this pair and the disagreement is exactly
     global forms vs module forms (all spellings of each name still agree among themselves)"""
     g = case.lines[0].split("\t")[1]
-    names = {FINDING_PAIRS.get(fl) for f in live for fl in f.get("flags", [])}
-    return g in names and r["v"].corr_ok and case.note.get("split") == "global-vs-module" and \
-        "forms disagree" in (r["v"].fails or "")
+    flags = {fl for f in live for fl in f.get("flags", [])}
+    if not r["v"].corr_ok or case.note.get("split") != "global-vs-module":
+        return False
+    why = r["v"].fails or ""
+    if "grayscaleGlobalRgbFormat" in flags and g == "grayscale" and "forms disagree" in why:
+        return True
+    # min/max: only "every module form fails with an incompatible-units error while every global form is kept as css"
+    if "minMaxCssFallback" in flags and g in ("max", "min") and case.note.get("minmax_fallback"):
+        return True
+    return False
 
 
 def nontrivial(case, impl, spec):
